@@ -52,8 +52,8 @@ func bytesProbes() []vk.Probe {
 			if m := checkMsgReceiver([][]byte{append(append([]byte{}, neg...), 'x')}, "read", 64, false); m != "" {
 				return true, m
 			}
-			// an 8-byte chunk announcing 256 MiB: ReadFully allocates it before any payload arrives
-			if m := checkMsgReceiver([][]byte{{0, 0, 0, 0, 0x10, 0, 0, 0}}, "readfully", 64, false); m != "" {
+			// an 8-byte chunk announcing 128 MiB: ReadFully allocates it before any payload arrives
+			if m := checkMsgReceiver([][]byte{{0, 0, 0, 0, 0x08, 0, 0, 0}}, "readfully", 64, false); m != "" {
 				return true, m
 			}
 			return false, ""
@@ -382,7 +382,7 @@ func checkPgMsg(kind string, b []byte, honorKnown bool) string {
 var pgKinds = []string{"bind", "parse", "execute", "describe", "query", "password", "copyfail", "copydata", "sync", "flush", "terminate"}
 
 func TestPgsqlFrontendMessages(t *testing.T) {
-	vk.Check(t, 40000, 1500000, func(rt *rapid.T, c *vk.Case) {
+	vk.Check(t, 24000, 1000000, func(rt *rapid.T, c *vk.Case) {
 		msg := genPgMsg(rt)
 		b, desc, single := mutate(rt, msg.l)
 		kind := msg.kind
@@ -713,9 +713,9 @@ func FuzzStreamReceivers(f *testing.F) {
 // ---------------------------------------------------------------------------
 // appendable metadata (the header every appendable file starts with)
 
-// refMetadata mirrors appendable.Metadata.ReadFrom for inputs that bufio
-// buffers at once (< 4096 bytes): Read(p) hands over min(len(p), remaining)
-// bytes; an empty p never fails; nothing left and len(p)>0 is an error.
+// refMetadata mirrors appendable.Metadata.ReadFrom (fields are read with
+// io.ReadFull: a field that is not completely there ends the decoding; what was
+// decoded before stays).
 type refMetadata struct {
 	known  string
 	keys   []string
@@ -726,26 +726,20 @@ func classifyAppMetadata(b []byte) refMetadata {
 	var m refMetadata
 	rest := b
 	readField := func() ([]byte, bool) {
-		var lenb [4]byte
-		if len(rest) == 0 {
+		if len(rest) < 4 {
 			return nil, false
 		}
-		n := copy(lenb[:], rest)
-		rest = rest[n:]
-		ln := binary.BigEndian.Uint32(lenb[:])
-		if ln > 16<<10 && int(ln) > len(rest) {
+		ln := binary.BigEndian.Uint32(rest)
+		rest = rest[4:]
+		if ln > 16<<10 && int64(ln) > int64(len(rest)) {
 			m.known = kfF16 // make([]byte, ln) before anything is read
 			return nil, false
 		}
-		fb := make([]byte, ln)
-		if ln == 0 {
-			return fb, true
-		}
-		if len(rest) == 0 {
+		if int64(ln) > int64(len(rest)) {
 			return nil, false
 		}
-		n = copy(fb, rest)
-		rest = rest[n:]
+		fb := rest[:ln]
+		rest = rest[ln:]
 		return fb, true
 	}
 	if b == nil {
@@ -836,10 +830,6 @@ func TestAppendableMetadata(t *testing.T) {
 		}
 		b, desc, single := mutate(rt, l)
 		c.Descf("entries=%d | %s", n, desc)
-		if len(b) >= 4000 {
-			c.Label("not-run-(>=4000-bytes:-bufio-refill-not-modelled)")
-			return
-		}
 		ref := classifyAppMetadata(b)
 		if ref.known != "" {
 			c.Label("known-class-" + ref.known)
@@ -866,9 +856,6 @@ func FuzzAppendableMetadata(f *testing.F) {
 		f.Add(s)
 	}
 	f.Fuzz(func(t *testing.T, b []byte) {
-		if len(b) >= 4000 {
-			return // the reference framing models inputs that bufio buffers in one go
-		}
 		if m := checkAppMetadata(b, true); m != "" {
 			t.Fatal(m)
 		}
